@@ -33,7 +33,7 @@ def refine(state, cond, truth, blk=None):
                     return None
             return state | {("eq", p, truth[1])}
         return state
-    facts = X.implied(cond, truth)
+    facts = set(X.implied(cond, truth)) | guard_helper_facts(cond, truth)
     if not facts:
         return state
     out = set(state)
@@ -59,6 +59,46 @@ def refine(state, cond, truth, blk=None):
         if f[0] in ("nn", "null", "eq", "ne", "true", "false"):
             out.add(f)
     return frozenset(out)
+
+
+_ACTIVE = [None]        # the Summaries object of the running check (set by Summaries.__init__)
+
+
+def guard_helper_facts(cond, truth):
+    """A call to a helper that answers `true` whenever one of its pointer arguments is NULL (a NULL-ordering or validity
+    helper extracted from several functions) is a NULL test of those arguments: on the outcome the helper never produces
+    for a NULL argument, the argument is known non-NULL."""
+    summ = _ACTIVE[0]
+    if summ is None:
+        return set()
+    c = X.strip(cond)
+    pol = truth
+    while c is not None and c.get("k") == "un" and c.get("op") == "!":
+        c = X.strip(c["ch"][0])
+        pol = not pol
+    if c is not None and c.get("k") == "bin" and c.get("op") in ("!=", "==") and X.const_val(c["ch"][1]) == 0:
+        if c["op"] == "==":
+            pol = not pol
+        c = X.strip(c["ch"][0])
+    if c is None or c.get("k") != "call":
+        return set()
+    cn = X.callee_name(c)
+    g = summ.prog.fn(cn) if cn else None
+    if g is None or g.cfg is None:
+        return set()
+    out = set()
+    for j, a in enumerate(c["ch"][1:]):
+        if j >= len(g.params) or not g.params[j].get("tp"):
+            continue
+        p = X.apath(a)
+        if p is None:
+            continue
+        kind = summ.null_answer(cn, j)
+        if kind == "true" and not pol:
+            out.add(("nn", p))
+        if kind == "false" and pol:
+            out.add(("nn", p))
+    return out
 
 
 import re as _re
@@ -128,8 +168,11 @@ def transfer(state, n, blk=None):
             if val is not None:
                 st = st | {(val, p)}
             cv = X.const_val(n["ch"][1])
+            if cv is None and not X.is_pointer(n):
+                # flag = (cond) ? TRUE : FALSE  /  flag = !ISNULL(x)  with the condition decided by the facts at hand
+                cv = decided_truth(n["ch"][1], state)
             if cv is not None and not X.is_pointer(n):
-                st = st | {("eq", p, cv)}
+                st = st | {("eq", p, cv)} if isinstance(cv, int) and not isinstance(cv, bool) else st
                 st = st | {("true" if cv else "false", p)}
             return st
         if n.get("op") in ("+=", "-=") and X.is_pointer(n):
@@ -205,6 +248,37 @@ class Summaries:
         self.results = {}  # (fname, i) -> ScenarioResult
         self._computing = set()
         self.alloc = None
+        self._nullans = {}
+        _ACTIVE[0] = self
+
+    def null_answer(self, fname, i):
+        """'true' / 'false' when fname, called with NULL for pointer parameter i, returns only constant truthy / only constant
+        zero values and dereferences nothing (it is a predicate about that argument's NULLness); else None"""
+        key = (fname, i)
+        if key in self._nullans:
+            return self._nullans[key]
+        self._nullans[key] = None
+        fn = self.prog.fn(fname)
+        if fn is None or fn.cfg is None or not (fn.static or fname.startswith("spif")) or len(fn.nodes) > 400:
+            return None
+        if not re_int_ret(fn):
+            return None
+        res = self.result(fname, i)
+        ans = None
+        if res is not None and res.returns and not res.derefs:
+            vals = set()
+            for _, v in res.returns:
+                try:
+                    vals.add(int(v))
+                except (TypeError, ValueError):
+                    vals.add(None)
+            if None not in vals:
+                if all(v != 0 for v in vals):
+                    ans = "true"
+                elif all(v == 0 for v in vals):
+                    ans = "false"
+        self._nullans[key] = ans
+        return ans
 
     def derefs_param(self, fname, i):
         """Does calling fname with NULL for pointer parameter i (others valid) reach a dereference of it?"""
@@ -265,6 +339,11 @@ class Summaries:
         self.alloc = alloc
 
 
+def re_int_ret(fn):
+    t = (fn.j.get("retc") or "") + " " + (fn.j.get("ret") or "")
+    return "*" not in t and "void" not in t
+
+
 class ScenarioResult:
     def __init__(self):
         self.derefs = []     # (node, kind, via)
@@ -293,7 +372,7 @@ def param_tests(fn):
         for s, cond, truth in cfg.edges(b):
             if cond is None or isinstance(truth, tuple):
                 continue
-            for f in X.implied(cond, True) | X.implied(cond, False):
+            for f in X.implied(cond, True) | X.implied(cond, False) | guard_helper_facts(cond, True) | guard_helper_facts(cond, False):
                 if f[0] in ("nn", "null") and f[1] in ppaths:
                     res.add(ppaths[f[1]])
     return res
@@ -372,6 +451,19 @@ def scenario(fn, i, summ, assume_others_nonnull=True):
 
     flow.forward(cfg, frozenset(seed), transfer, refine=refine, visit=visit)
     return res
+
+
+def decided_truth(e, state):
+    """True/False when the nullness facts of the state decide the truth value of the integer expression e, else None"""
+    r = resolve_conditional(e, state)
+    cv = X.const_val(r)
+    if cv is not None:
+        return bool(cv)
+    if _contradicts(X.implied(r, True), state) and X.implied(r, True):
+        return False
+    if _contradicts(X.implied(r, False), state) and X.implied(r, False):
+        return True
+    return None
 
 
 def _contradicts(facts, state):
